@@ -36,3 +36,6 @@ CLAIMS = {
                      "exhibit failing inputs.",
                 note=NOTE, technique=TECH),
 }
+
+for _p in PROPS.values():
+    _p.setdefault("cover_files", ['contracts/nns/'])
